@@ -14,8 +14,10 @@ type vLeafSpec[T any] struct {
 	mk   func() Column
 	gen  func() T
 	app  func(c Column, v T)
-	row  func(c Column, i int) T
-	eq   func(a, b T) bool
+	// appArr appends several values in one call (nil: the column has no bulk append)
+	appArr func(c Column, vs []T)
+	row    func(c Column, i int) T
+	eq     func(a, b T) bool
 	// cast turns the column produced by inference into one `row` understands (nil: not inferable)
 	auto func(c Column) (Column, bool)
 	// emit publishes a decoded value for a dual (two-program) comparison
@@ -29,10 +31,11 @@ var vPrefixLens = [3]int{0, 3, 8}
 var vMode int
 
 // vBlockRoundTrip is the C01 oracle for one column:
-//  (a) encoding after m arbitrary bytes leaves them untouched and appends exactly the bytes produced for an empty buffer;
-//  (b) typed decode returns the appended values, the row count and exhausts the reader;
-//  (c) inferred decode (Results.Auto) yields the same name, type and values;
-//  (d) block header as sent.
+//
+//	(a) encoding after m arbitrary bytes leaves them untouched and appends exactly the bytes produced for an empty buffer;
+//	(b) typed decode returns the appended values, the row count and exhausts the reader;
+//	(c) inferred decode (Results.Auto) yields the same name, type and values;
+//	(d) block header as sent.
 func vBlockRoundTrip[T any](l vLeafSpec[T]) {
 	if vMode == 3 {
 		vCodecDual(l)
@@ -347,7 +350,16 @@ func vHistory[T any](l vLeafSpec[T]) {
 	}
 	steps := verifIntRange("steps", 1, verifParam("maxsteps", 3))
 	for s := 0; s < steps; s++ {
-		switch verifChoice("step", 5) {
+		switch verifChoice("step", 6) {
+		case 5: // bulk append of two values
+			vs := []T{l.gen(), l.gen()}
+			if l.appArr != nil {
+				l.appArr(c, vs)
+			} else {
+				l.app(c, vs[0])
+				l.app(c, vs[1])
+			}
+			model = append(model, vs...)
 		case 0: // append
 			v := l.gen()
 			l.app(c, v)
